@@ -163,12 +163,14 @@ theorem quiescent_step_ok (ops : List MOp) (op : MOp) :
 
 /-- The first sentence of the property, at quiescent points: when a live actor exits (here: is killed;
 the other causes go through the same `exitM`), exactly the actors linked beneath it at that moment,
-transitively, reach Stopped — everybody else keeps its status. -/
+transitively, reach Stopped — except those that had already left their message loop and sit in
+`post_stop` (`Stopping`; they are exiting by themselves and are left alone) — everybody else keeps its status. -/
 theorem quiescent_exit_takes_subtree (ops : List MOp) (a : Nat)
     (hal : (mrun true {} ops).alive a = true) :
     let m := mrun true {} ops
     let m' := (mstep true m (.kill a)).1
-    (∀ z, Desc m.t a z → m'.t.status z = .stopped) ∧ (∀ z, ¬ Desc m.t a z → m'.t.status z = m.t.status z) := by
+    (∀ z, Desc m.t a z → m'.t.status z = if z ≠ a ∧ m.t.status z = .stopping then .stopping else .stopped) ∧
+    (∀ z, ¬ Desc m.t a z → m'.t.status z = m.t.status z) := by
   intro m m'
   have h := mrun_MI ops
   obtain ⟨han, hag⟩ := alive_iff.mp hal
@@ -178,6 +180,36 @@ theorem quiescent_exit_takes_subtree (ops : List MOp) (a : Nat)
   rw [e]
   obtain ⟨_, hD, hN, _, _⟩ := exitM_spec h han hag
   exact ⟨hD, hN⟩
+
+/-- Handing a child over, in every reachable state (in particular while its supervisor has published
+`Stopping` and sits in `post_stop` with its child set still open — `setStatus a .stopping` is one of the
+operations): after an accepted `link c b` the child is in exactly one child set, `b`'s. -/
+theorem relink_in_exactly_one_set (fixed : Bool) (ops : List Op) (c b : Nat)
+    (h : (link (steps fixed init ops) c b).2 = true) (p : Nat) :
+    child (link (steps fixed init ops) c b).1 p c ↔ p = b :=
+  relink_unique (invariant fixed ops) h p
+
+/-- … and the exit of its former supervisor `a` does not send it the kill signal, as long as the new
+supervisor is not itself beneath `a`. -/
+theorem relink_escapes_former_supervisor (fixed : Bool) (ops : List Op) (a b c : Nat)
+    (h : (link (steps fixed init ops) c b).2 = true) (hca : c ≠ a)
+    (hnb : ¬ Desc (link (steps fixed init ops) c b).1 a b) :
+    (exit fixed (link (steps fixed init ops) c b).1 a).killed c = (steps fixed init ops).killed c :=
+  relink_escapes_exit fixed (invariant fixed ops) h hca hnb
+
+/-- The same as a race with the small-step exit: `a` publishes `Stopping` (first step of its exit; then
+comes `post_stop`, then `cleanup`), its child `c` is relinked to `b` outside `a`'s subtree, `a` finishes.
+The relink is accepted, `c` is in exactly `b`'s child set, and at the end of `a`'s exit `c` has not been
+sent a kill signal by it and is still supervised by `b`. -/
+theorem race_relink_during_post_stop (ops : List Op) (a b c n : Nat) (hca : c ≠ a)
+    (hres : (link (setStatus (steps true init ops) a .stopping) c b).2 = true)
+    (hnb : ¬ Desc (link (setStatus (steps true init ops) a .stopping) c b).1 a b)
+    (hdone : (raceRun true false (steps true init ops) a c b 1 n).1.pc = .done) :
+    (raceRun true false (steps true init ops) a c b 1 n).2 = true ∧
+    (raceRun true false (steps true init ops) a c b 1 n).1.t.killed c = (steps true init ops).killed c ∧
+    (raceRun true false (steps true init ops) a c b 1 n).1.t.sup c = some b ∧
+    (∀ p, child (link (setStatus (steps true init ops) a .stopping) c b).1 p c ↔ p = b) :=
+  race_relink_post_stop true _ (invariant true ops) a b c n hca hres hnb hdone
 
 /-! ### ties to the source text (E-SRC) -/
 
@@ -212,6 +244,13 @@ example : let s := steps true init [.spawn, .spawn, .spawn, .spawn, .setStatus 0
     (raceRun true false s 0 3 2 3 9).2 = true ∧ (raceRun true false s 0 3 2 3 9).1.t.killed 3 = true ∧
       (raceRun true false s 0 3 2 4 9).2 = false ∧ (raceRun true false s 0 3 2 3 9).1.pc = .done := by decide
 
+/-- supervisor 0 is Stopping (in `post_stop`) with child 1; 1 is handed over to 2; 0 finishes: 1 lives on under 2 -/
+example : let s := steps true init [.spawn, .spawn, .spawn, .setStatus 0 .running, .setStatus 1 .running,
+      .setStatus 2 .running, .link 1 0]
+    (raceRun true false s 0 1 2 1 9).2 = true ∧ (raceRun true false s 0 1 2 1 9).1.t.killed 1 = false ∧
+      (raceRun true false s 0 1 2 1 9).1.t.sup 1 = some 2 ∧ (raceRun true false s 0 1 2 1 9).1.t.kids 2 = some [1] ∧
+      (raceRun true false s 0 1 2 1 9).1.t.status 0 = .stopped ∧ (raceRun true false s 0 1 2 1 9).1.pc = .done := by decide
+
 /-- a link that arrives after the first exit step is refused; one that arrives before is killed -/
 example : let s := steps true init [.spawn, .spawn, .setStatus 0 .running, .setStatus 1 .running]
     (raceRun true false s 0 1 0 1 9).2 = false ∧ (raceRun true false s 0 1 0 0 9).2 = true ∧
@@ -236,6 +275,9 @@ end C05
 #print axioms C05.exit_machine_complete
 #print axioms C05.quiescent_step_ok
 #print axioms C05.quiescent_exit_takes_subtree
+#print axioms C05.relink_in_exactly_one_set
+#print axioms C05.relink_escapes_former_supervisor
+#print axioms C05.race_relink_during_post_stop
 #print axioms C05.kill_condition_matches_source
 #print axioms C05.cleanup_order_matches_source
 #print axioms C05.status_discriminants_match_source
